@@ -79,7 +79,8 @@ fn lib_dearmor(input: &[u8], check: bool, src: &[usize], reqs: &[usize]) -> Stri
     let r = guarded(|| -> Result<String, String> {
         let opt = if check { DearmorOptions::new().enable_crc24_check() } else { DearmorOptions::new() };
         let mut d = Dearmor::with_options(SchedBufReader::new(input.to_vec(), src.to_vec()), opt);
-        let (data, res) = consume_read(&mut d, reqs);
+        // half of the schedules also read into an empty buffer before every read (asks for nothing, must change nothing)
+        let (data, res) = if reqs.iter().sum::<usize>() % 2 == 0 { consume_read_with_empty(&mut d, reqs) } else { consume_read(&mut d, reqs) };
         res?;
         let typ = d.typ.ok_or("no type")?;
         let crc = match d.crc24_status() {
